@@ -27,3 +27,4 @@ def run(project, rep):
     rep.run(P.p_r6_every_match_dispatched, project, rep)
     rep.run(P.p_r7_every_match_fed, project, rep)
     rep.run(P.x_rules, project, rep)
+    rep.run(P.p_rules, project, rep)
